@@ -2,6 +2,8 @@ package props
 
 import (
 	"fmt"
+	"strconv"
+	"strings"
 	"testing"
 
 	flags "github.com/jessevdk/go-flags"
@@ -88,6 +90,28 @@ func c03Oracle(c *ParseCase) string {
 	if rr.Panic != "" || rr.SetupErr != nil {
 		st.Label("skip: panic or setup error")
 		return ""
+	}
+	if rr.Err == nil && ref.Err != nil && strings.HasPrefix(ref.Err.Why, "positional conversion of ") {
+		// the parse succeeded although a passed-through token falls on a positional
+		// field it cannot be converted to: that token was neither bound nor returned
+		tokQ := strings.TrimPrefix(ref.Err.Why, "positional conversion of ")
+		if tk, err := strconv.Unquote(tokQ); err == nil {
+			n := 0
+			for _, a := range c.Args {
+				if a == tk {
+					n++
+				}
+			}
+			m := 0
+			for _, a := range rr.Rest {
+				if a == tk {
+					m++
+				}
+			}
+			if m < n {
+				return fmt.Sprintf("token %q was dropped: it cannot be bound to the pending positional (%s), the parse succeeded, and the remaining arguments %q hold it %d time(s) of %d", tk, ref.Err.Why, rr.Rest, m, n)
+			}
+		}
 	}
 	if rr.Err != nil || ref.Err != nil {
 		st.Label("skip: not a successful parse")
